@@ -445,6 +445,11 @@ func runVariant(c *run.Ctx, cs Case, s *Spec, a *Agg, v *Variant, dir string, re
 			} else if sparkRowsApplicable(s, a) {
 				c.Count("sparkline_screens_read_back", 1)
 			}
+			if f := judgeHeatRows(s, a, body); f != nil {
+				say(f)
+			} else if heatRowsApplicable(s, a) {
+				c.Count("heatmap_screens_read_back", 1)
+			}
 			if f := judgeReduceRows(s, a, body); f != nil {
 				say(f)
 			} else if reduceRowsApplicable(s, a) {
